@@ -131,7 +131,7 @@ def compress_groups(tier, props=("C13", "C03", "C09", "C12")):
     """_mzd_compress_l (mzp.c), the compression step of the block-recursive PLE, under its own contract.
     (r1, n1, r2, nrows, ncols, kinds, zero rows or None): rest = 64 - r1 % 64 bits first, then whole words (aligned / shifted), then a partial word"""
     cases = [(3, 64, 2, 7, 70, ["owned", "view1"], None), (0, 64, 3, 5, 67, ["owned"], None), (5, 64, 0, 6, 65, ["owned"], None), (64, 64, 3, 68, 70, ["owned"], None),
-             (63, 64, 66, 131, 130, ["owned"], (63, 120)), (60, 64, 70, 132, 134, ["view1"], (60, 125)),
+             (63, 64, 66, 131, 130, ["owned"], (63, 120)), (10, 64, 60, 80, 128, ["owned"], (10, 65)),   # last: rowstride == width, the tail of L2 in the row's last word (60, 64, 70, 132, 134, ["view1"], (60, 125)),
              (64, 128, 130, 196, 258, ["owned"], (64, 190))]
     if tier == "thorough":
         cases += [(63, 64, 66, 131, 130, ["owned", "view1"], None), (1, 128, 200, 203, 330, ["owned"], (1, 198))]
